@@ -498,3 +498,16 @@ Definition safe (s : state) : list tok :=
 
 Definition is_flush_timeout (e : event) : bool := match e with EFlushTimeout _ _ => true | _ => false end.
 Definition no_timeout (es : list event) : bool := forallb (fun e => negb (is_flush_timeout e)) es.
+
+(* events excluded by the hypotheses of the order theorems: a chunk whose file survives although the chunk was
+   dropped from the queue (queue overflow after a successful spill; read error at load time) is recovered at the
+   next start and delivered after newer chunks *)
+Definition order_safe_event (e : event) : bool :=
+  match e with
+  | EChunkClose _ _ ADropFullSaved => false
+  | EWorkerStop _ _ ADropFullSaved => false
+  | EFeederLoad _ false => false
+  | _ => true
+  end.
+Definition order_safe (es : list event) : bool := forallb order_safe_event es.
+
